@@ -68,7 +68,7 @@ func (pass *AnonymousStructsToNamed) processObject(object ast.Object) ast.Object
 	pkg := object.SelfRef.ReferredPkg
 	parentName := tools.UpperCamelCase(pkg) + tools.UpperCamelCase(object.Name)
 
-	if object.Type.IsAnyOf(ast.KindArray, ast.KindMap, ast.KindDisjunction) {
+	if object.Type.IsAnyOf(ast.KindArray, ast.KindMap, ast.KindDisjunction, ast.KindIntersection) {
 		newObject.Type = pass.processType(pkg, parentName, object.Type)
 	}
 
@@ -95,8 +95,30 @@ func (pass *AnonymousStructsToNamed) processType(pkg string, parentName string, 
 		return pass.processDisjunction(pkg, parentName, def)
 	}
 
+	if def.IsIntersection() {
+		return pass.processIntersection(pkg, parentName, def)
+	}
+
 	if def.IsStruct() {
 		return pass.processStruct(pkg, parentName, def)
+	}
+
+	return def
+}
+
+// processIntersection keeps the struct branches where they are (they are the
+// composition itself) and names the structs found in their fields.
+func (pass *AnonymousStructsToNamed) processIntersection(pkg string, parentName string, def ast.Type) ast.Type {
+	for i, branch := range def.Intersection.Branches {
+		if !branch.IsStruct() {
+			def.Intersection.Branches[i] = pass.processType(pkg, parentName, branch)
+			continue
+		}
+
+		for j, field := range branch.Struct.Fields {
+			name := parentName + tools.UpperCamelCase(field.Name)
+			branch.Struct.Fields[j].Type = pass.processType(pkg, name, field.Type)
+		}
 	}
 
 	return def
